@@ -9,6 +9,7 @@ CONSTANTS
   NoWait = FALSE
   MaxWait = 0
   Batch = 0
+  PostPaid = FALSE
   BigUncharged = TRUE
 INVARIANT RateBound
 CHECK_DEADLOCK FALSE
